@@ -20,6 +20,14 @@ register('C09', 'p_text', 'c09',
          ORACLE)
 
 
+register('C04', 'p_pgp', 'c04',
+         'exhaustive line-class sequences (10 classes, both final-newline settings, length <= 4 quick / 6 thorough), random longer '
+         'sequences over 22 classes with CR/LF variants, and mutations (insert/delete/duplicate/move lines, whitespace, CRLF, dash-escapes, '
+         'injected armor, concatenation) of Manifests genuinely signed with gpg; non-trivial = distinct text',
+         'Theorems in Properties/C04.v (one invariant over the loader fold); Spec/Cleartext.v c04_b is evaluated by the extracted model on the '
+         'implementation output (entries + text captured at verify_file); with real gpg the entries are compared with those of the cleartext gpg authenticates.',
+         ORACLE + ['GnuPG: --decrypt outputs the authenticated cleartext (dash-unescaped, trailing whitespace removed)'])
+
 # ---- MANIFEST metadata per claimed property ------------------------------------------------
 NOT_APPLICABLE = {}
 META = {
@@ -31,6 +39,14 @@ META = {
               'The model is tied to /repo by regenerated tables (regexes, encode_char, tag table) and by exhaustive/random correspondence.',
    level_note='Theorems are about the hand-written model Model/{Entry,Text}.v; Python builtins modelled in Py/; compression codecs and UTF-8 '
               'are exercised on the implementation only (round trip through real files); Print Assumptions: closed under the global context.'),
+ 'C04': dict(engine='coq+text+pgp', design_ref='DESIGN.md section 5 C04',
+   technique='Coq invariant proof over the cleartext state machine + spec checker c04_b evaluated on implementation output + real-gpg differential',
+   level_text='Proved in Coq for every text (any number of lines): if loading with verification reaches verify_file, the text handed over is exactly '
+              'the BEGIN..END slice of the unique framework, only blank lines surround it, and the entries are exactly those of the dash-unescaped body '
+              '(C04_signed_text, against the declarative spec Spec/Cleartext.v); a BEGIN line is never ignored; failures are syntax/unsigned errors; '
+              'the verify flag does not change the entries. The clause about gpg-authenticated cleartext is carried by the real-gpg differential run.',
+   level_note='About the model (Model/Text.v load); tie: exhaustive line-class sequences and gpg-signed mutations run through both; '
+              'GnuPG behaviour (what it authenticates) is an oracle, exercised with gpg 2.2 on every run.'),
  'C09': dict(engine='coq+text', design_ref='DESIGN.md section 5 C09',
    technique='Coq theorems (totality of the parser result type by induction over lines; per-class rejection lemmas) + differential runs',
    level_text='Proved in Coq for every text: load returns entries, ManifestSyntaxError or ManifestUnsignedData and nothing else; accepted entries '
